@@ -4,7 +4,7 @@
    (TwoSum_correct, Fast2Sum_correct); they depend on the standard library's real-number axioms only. *)
 From Coq Require Import ZArith Reals Lia.
 From Flocq Require Import Core BinarySingleNaN Pff2Flocq.
-From UV Require Import TS.
+From UV Require Import TS EFTProps.
 Local Open Scope Z_scope.
 
 (* two_sum on binary64 values: whenever no intermediate operation overflows, s + r = a + b exactly and s = RN(a + b) *)
@@ -25,15 +25,35 @@ Definition C13_two_sum_exact_full : Prop := forall a b : b64,
   (Rabs (B2R a) <= bpow radix2 1023)%R -> (Rabs (B2R b) <= bpow radix2 1023)%R ->
   (B2R (fst (two_sum a b)) + B2R (snd (two_sum a b)) = B2R a + B2R b)%R.
 
-(* quick_two_sum at the level of rounded real arithmetic in the binary64 format (emin = -1074, prec = 53):
-   s = RN(x + y), r = RN(y - RN(s - x)) satisfy s + r = x + y whenever |y| <= |x| *)
-Theorem C13_quick_two_sum_R : forall x y : R,
-  generic_format radix2 (FLT_exp (-1074) 53) x -> generic_format radix2 (FLT_exp (-1074) 53) y ->
-  (Rabs y <= Rabs x)%R ->
-  let RN := round radix2 (FLT_exp (-1074) 53) (Znearest (fun n => negb (Z.even n))) in
-  (RN (x + y) + RN (y + RN (x - RN (x + y))) = x + y)%R.
-Proof.
-  intros x y Fx Fy Hxy RN.
-  apply (Fast2Sum_correct (-1074) 53 (fun n => negb (Z.even n)) ltac:(lia) ltac:(lia) choice_sym x y Fx Fy Hxy).
-Qed.
+(* ---- the operation sequences of error_free_ops.hpp, written literally over rounded real arithmetic in the binary64 format
+   (EFTProps.v: FLT exponent function, emin = -1074, prec = 53, nearest-even).  First outputs are RN(exact) by definition
+   (two_sum_s a b := RN64 (a + b), two_prod_p a b := RN64 (a * b), ...); the theorems are the exactness identities, for ALL
+   format members.  FLT has no largest exponent, so these theorems do not speak about overflow: the property's input bounds
+   (|x| <= MAX/2, products in [2^-900, 2^1000]) keep the real computation inside the range where binary64 = FLT. ---- *)
+Theorem C13_two_sum_R : forall a b : R, fmt64 a -> fmt64 b -> (two_sum_s a b + two_sum_r a b = a + b)%R.
+Proof. exact two_sum_R. Qed.
+Print Assumptions C13_two_sum_R.
+Theorem C13_two_diff_R : forall a b : R, fmt64 a -> fmt64 b -> (two_diff_s a b + two_diff_r a b = a - b)%R.
+Proof. exact two_diff_R. Qed.
+Print Assumptions C13_two_diff_R.
+Theorem C13_quick_two_sum_R : forall a b : R, fmt64 a -> fmt64 b -> (Rabs b <= Rabs a)%R ->
+  (quick_two_sum_s a b + quick_two_sum_r a b = a + b)%R.
+Proof. exact quick_two_sum_R. Qed.
 Print Assumptions C13_quick_two_sum_R.
+(* split with the splitter 2^27 + 1 (not the re-scaled branch for |a| > 2^996): hi + lo = a and lo fits 27 bits *)
+Theorem C13_split_R : forall a : R, fmt64 a ->
+  (a = split_hi a + split_lo a)%R /\ generic_format radix2 (FLT_exp (-1074) 27) (split_lo a).
+Proof. exact split_R. Qed.
+Print Assumptions C13_split_R.
+(* two_prod (Dekker): exact whenever the product is zero or at least 2^-969 in magnitude (the property asks for 2^-900) *)
+Theorem C13_two_prod_R : forall a b : R, fmt64 a -> fmt64 b ->
+  ((a * b = 0)%R \/ (bpow radix2 (-969) <= Rabs (a * b))%R) -> (a * b = two_prod_p a b + two_prod_r a b)%R.
+Proof. exact two_prod_R. Qed.
+Print Assumptions C13_two_prod_R.
+(* three_sum: the three outputs sum exactly to the three inputs (that its first output is only faithful, not RN, is finding KF-C13-1) *)
+Theorem C13_three_sum_R : forall x y z : R, fmt64 x -> fmt64 y -> fmt64 z ->
+  let '(r0, r1, r2) := three_sum_out x y z in (r0 + r1 + r2 = x + y + z)%R.
+Proof. exact three_sum_R. Qed.
+Print Assumptions C13_three_sum_R.
+(* not proved: two_sqr's own sequence ((hi*hi - p) + 2.0*hi*lo) + lo*lo and the generic twoSum on cfloat -- judged per case against
+   the exact specification (EFTModel.v) by the correspondence streams *)
